@@ -19,7 +19,11 @@ RULE = (
     '(stacks, bets, statuses, cards and facings, boards, piles, deck order, '
     'pots, actor, street, status) must be equal and no step of a kind in S '
     'may still be available; both runs end terminal with equal stacks and '
-    'logs. Non-trivial = S is a proper non-empty subset; distinct by (game, '
+    'logs; the logged operations of kinds outside S are exactly the client '
+    'calls, in order (the engine performs nothing that was not automated). '
+    'One hand in ten is 7-8 handed stud played passively to seventh street '
+    '(deck exhaustion: community card instead of hole cards). '
+    'Non-trivial = S is a proper non-empty subset; distinct by (game, '
     'players, S, mode, boards, operation-kind sequence).')
 ASSUMPTIONS = [
     'vflib.load replaces the two module-level shuffle functions by a keyed '
@@ -31,7 +35,8 @@ TIME = {'quick': 70, 'thorough': 560}
 MIN_NONTRIVIAL = {'quick': 2500, 'thorough': 30000}
 REQUIRED = ('twin_pairs', 'automated_steps_replayed_with_defaults',
             'decision_points_compared', 'terminal_pairs_compared',
-            'subsets_seen')
+            'subsets_seen', 'client_call_sequences_compared',
+            'stud_fallback_twins')
 
 CUSTOMS = ('kuhn', 'draw5', 'stud5', 'greek', 'courchevel', 'holdem8',
            'plo8', 'badugi1', 'razzdraw', 'random')
@@ -86,6 +91,26 @@ class TwinMonitor(Monitor):
                         f'in the manual twin')
                     return
 
+        # automation performs only the steps that are automated: every
+        # logged operation whose kind is not in S was a client call, in order
+        client = [c[0] for c in ctx.script]
+        manual = [opname(op) for op in log if AUTO_OF.get(opname(op)) not in S]
+        ctx.counters['client_call_sequences_compared'] += 1
+        if client != manual:
+            k = next((i for i, (x, y) in enumerate(zip(client, manual))
+                      if x != y), min(len(client), len(manual)))
+            ctx.violate(
+                f'the log holds {len(manual)} operations of kinds that are '
+                f'not automated, the client made {len(client)} calls; first '
+                f'difference at #{k}: log {manual[k:k + 3]} vs calls '
+                f'{client[k:k + 3]} (the engine performed a step nobody '
+                f'automated, or dropped one)')
+            return
+        if any(type(op).__name__ == 'BoardDealing' for op in log) and any(
+                st.hole_dealing_statuses and not st.board_dealing_count
+                and i for i, st in enumerate(a.streets)) and not any(
+                st.board_dealing_count for st in a.streets):
+            ctx.counters['stud_fallback_twins'] += 1
         compare_point('start')
         for k, op in enumerate(log):
             if ctx.violations:
@@ -137,6 +162,13 @@ SUBSET_CURSOR = [0]
 
 
 def gen_kwargs(rng):
+    if rng.random() < 0.1:
+        # 7-8 handed stud played to seventh street: the deck cannot cover
+        # the last hole cards and one community card is dealt instead
+        return dict(
+            games=gen.STUD_GAMES, customs=(), chip_types=('int',),
+            strict_p=1.0, auto_styles=('any', 'single-off', 'single-on'),
+            min_n=8, hostile_chips=rng.random() < 0.3)
     return dict(
         customs=CUSTOMS, p_custom=0.25, chip_types=('int', 'int', 'Fraction'),
         max_boards=2, rake_ok=True, divmod_ok=False, strict_p=1.0,
@@ -161,6 +193,8 @@ def make_cfg_filter(tier, shard, of):
 def pol_tweak(pol, cfg, rng):
     if pol['deal'] == 'unknown':
         pol['deal'] = 'default'
+    if cfg.get('game') in gen.STUD_GAMES and cfg['n'] >= 7:
+        pol['policy'] = 'passive'
 
 
 def nontrivial(ctx):
